@@ -165,7 +165,7 @@ def run(chk):
 
         # two sites (and chains of commuting gates): exact propagator of the full Liouvillian
         J = rng.uniform(0.3, 1.0)
-        commuting = rng.random() < 0.5 or it == 0
+        commuting = (rng.random() < 0.5 or it == 0) and it != 1          # it == 1: a dissipative two-site chain in every run
         L2 = 2 if not commuting else rng.choice([2, 3, 4, 4, 5])
         if it == 0:
             L2 = rng.choice([4, 5])          # every run has a chain long enough for subsets with several sites traced out in between
@@ -186,6 +186,15 @@ def run(chk):
         for i in range(L2 - 1):
             chain.add_nn_hamiltonian(i, J * (SZ if commuting else SX), SZ if commuting else SX)
             Hfull += J * emb(SZ if commuting else SX, i) @ emb(SZ if commuting else SX, i + 1)
+        # two-site chains: also single-site and nearest-neighbour dissipators with rates different from one
+        jumps = []
+        if L2 == 2 and (rng.random() < 0.6 or it == 1):
+            g1, g2 = rng.choice([0.3, 0.7, 2.5]), rng.choice([0.4, 1.0, 1.8])
+            chain.add_site_dissipation(0, SM, gamma=g1)
+            jumps.append((g1, emb(SM, 0)))
+            A_, B_ = rng.choice([SM, SZ, SX]), rng.choice([SM, SM.T, SZ])
+            chain.add_nn_dissipation(0, A_, B_, gamma=g2)
+            jumps.append((g2, np.kron(A_, B_)))
         r0s = [oqupy.operators.spin_dm(rng.choice(["x+", "y+", "z+"])) for _ in range(L2)]
         # recorded subsets: neighbours, the two ends (all sites in between traced out), random subsets with gaps
         sites = list(range(L2)) + [(0, 1)]
@@ -206,13 +215,21 @@ def run(chk):
         rho = r0s[0]
         for r in r0s[1:]:
             rho = np.kron(rho, r)
-        U = expm(-1j * Hfull * dt)
+        DD = 2 ** L2
+        Lfull = -1j * (np.kron(Hfull, np.eye(DD)) - np.kron(np.eye(DD), Hfull.T))
+        for g_, C_ in jumps:
+            CdC = C_.conj().T @ C_
+            Lfull = Lfull + g_ * (np.kron(C_, C_.conj()) - 0.5 * np.kron(CdC, np.eye(DD)) - 0.5 * np.kron(np.eye(DD), CdC.T))
+        P = expm(Lfull * dt)
         worst = 0.0
         for k in range(N + 1):
             for s in sites:
                 keep = [s] if isinstance(s, int) else list(s)
                 worst = max(worst, np.abs(np.array(res["dynamics"][s].states[k]) - ptrace(rho, keep, L2)).max())
-            rho = U @ rho @ U.conj().T
+            rho = (P @ rho.reshape(-1)).reshape(DD, DD)
+        if jumps:
+            info["dissipators"] = [g_ for g_, _ in jumps]
+            worst = max(worst, np.abs(np.array(res["norm"]) - 1).max())
         # mutual consistency of the recorded subsets
         for k in range(N + 1):
             worst = max(worst, np.abs(ptrace(np.array(res["dynamics"][(0, 1)].states[k]), [0], 2) - np.array(res["dynamics"][0].states[k])).max())
